@@ -1,6 +1,6 @@
 /- Helper lemmas for C15: bit lemmas, closed form of validate, and the view-level transition system vrecv with
    recv_view: the verdict and the new (initial_state, last_seq, sliding_window) computed by M depend on the view only. -/
-import CoapVerif.Model.Replay
+import CoapVerif.Model.ReplayAbs
 namespace Coap.Replay
 
 theorem testBit_one (j : Nat) : Nat.testBit 1 j = decide (j = 0) := by
@@ -602,5 +602,174 @@ theorem srun_increasing (ops : List SOp) : ∀ (y : SSys) (U : List Nat) (n : Na
       · intro a ha b hb
         exact hfut b hb a (List.mem_append_left _ ha)
 
+
+
+/-! ### Conformance of M to the specification monitor S -/
+section Conformance
+open Coap.ReplaySpec (St Req Out allowed next conforms inWindow maxOf)
+
+theorem le_maxOf {A : List Nat} {q : Nat} (h : q ∈ A) : q ≤ maxOf A := by
+  induction A with
+  | nil => cases h
+  | cons a r ih =>
+    simp only [maxOf]
+    rcases List.mem_cons.mp h with rfl | h
+    · exact Nat.le_max_left _ _
+    · exact Nat.le_trans (ih h) (Nat.le_max_right _ _)
+
+theorem inWindow_all {w : Nat} {A : List Nat} {p : Nat} (h : inWindow w A p = true) : ∀ q ∈ A, q < p + min w 64 := by
+  intro q hq
+  unfold inWindow at h
+  cases A with
+  | nil => cases hq
+  | cons a r =>
+    simp only [List.isEmpty_cons, Bool.false_or, decide_eq_true_eq] at h
+    exact Nat.lt_of_le_of_lt (le_maxOf hq) h
+
+theorem vvalidate_none_init {cfg : Cfg} {v : View} {p : Nat} (hi : v.init = true) (h : vvalidate cfg v p = none) :
+    p ≥ SEQ_MAX := by
+  unfold vvalidate at h
+  by_cases h1 : p ≥ SEQ_MAX
+  · exact h1
+  · rw [if_neg h1, if_pos hi] at h; cases h
+
+/-- One step of M is allowed by the specification monitor, and the monitor state stays related to M's state:
+its accepted set is described by the window (`Good`), `synced` is "validation is armed". -/
+theorem vrecv_conforms {cfg : Cfg} {v : View} {A : List Nat} (ev : Ev) (g : Good v A) :
+    outOf (vrecv cfg v ev).2 ∈ allowed cfg.window ⟨A, !v.init || !cfg.b12⟩ (reqOf ev) ∧
+    Good (vrecv cfg v ev).1 (next ⟨A, !v.init || !cfg.b12⟩ (reqOf ev) (outOf (vrecv cfg v ev).2)).accepted ∧
+    (next ⟨A, !v.init || !cfg.b12⟩ (reqOf ev) (outOf (vrecv cfg v ev).2)).synced =
+      (!(vrecv cfg v ev).1.init || !cfg.b12) := by
+  have hlim : ReplaySpec.SEQ_LIMIT = SEQ_MAX := by decide
+  unfold vrecv
+  by_cases hval : (!v.init || !cfg.b12) = true
+  · rw [if_pos hval, hval]
+    cases hv : vvalidate cfg v ev.piv with
+    | none =>
+      refine ⟨?_, by simpa [outOf, next] using g, by simp [outOf, next, hval]⟩
+      simp only [outOf, allowed, reqOf]
+      by_cases ha : ev.authentic = true
+      · simp only [ha, Bool.not_true, Bool.false_eq_true, if_false]
+        by_cases hc : ev.piv ∈ A
+        · simp [hc]
+        · by_cases hl : ev.piv ≥ ReplaySpec.SEQ_LIMIT
+          · simp [hc, hl]
+          · by_cases hw : inWindow cfg.window A ev.piv = true
+            · exfalso
+              obtain ⟨v', hv'⟩ := vvalidate_live (cfg := cfg) g (by omega) hc (inWindow_all hw)
+              rw [hv] at hv'; cases hv'
+            · simp [hc, hl, hw]
+      · simp [ha]
+    | some v' =>
+      by_cases ha : ev.authentic = true
+      · have hg := vvalidate_good g hv
+        have hi := vvalidate_init_false hv
+        simp only [ha, Bool.not_true, Bool.false_eq_true, if_false, outOf, next, reqOf]
+        refine ⟨?_, hg.2, by simp [hi]⟩
+        simp only [allowed, ha, Bool.not_true, Bool.false_eq_true, if_false]
+        have hc : A.contains ev.piv = false := by simpa using hg.1
+        simp only [hc, Bool.false_eq_true, if_false]
+        split
+        · simp
+        · split <;> simp
+      · have ha' : ev.authentic = false := by simpa using ha
+        simp only [ha', Bool.not_false, if_true, outOf, next]
+        refine ⟨by simp [allowed, reqOf, ha'], g, by simp [hval]⟩
+  · rw [if_neg hval]
+    have hval' : (!v.init || !cfg.b12) = false := by simpa using hval
+    have hinit : v.init = true := by
+      cases hi : v.init <;> simp [hi] at hval' ⊢
+    rw [hval']
+    by_cases ha : ev.authentic = true
+    · simp only [ha, Bool.not_true, Bool.false_eq_true, if_false]
+      cases he : ev.echo with
+      | none => exact ⟨by simp [outOf, allowed, reqOf, ha, he], by simpa [outOf, next] using g, by simp [outOf, next, hval']⟩
+      | bad => exact ⟨by simp [outOf, allowed, reqOf, ha, he], by simpa [outOf, next] using g, by simp [outOf, next, hval']⟩
+      | good =>
+        simp only []
+        cases hv : vvalidate cfg v ev.piv with
+        | none =>
+          have := vvalidate_none_init hinit hv
+          refine ⟨?_, by simpa [outOf, next] using g, by simp [outOf, next, hval']⟩
+          have hl : ev.piv ≥ ReplaySpec.SEQ_LIMIT := by omega
+          simp [outOf, allowed, reqOf, ha, he, hl]
+        | some v' =>
+          have hg := vvalidate_good g hv
+          have hi := vvalidate_init_false hv
+          refine ⟨?_, by simpa [outOf, next, reqOf] using hg.2, by simp [outOf, next, hi]⟩
+          simp only [outOf, allowed, reqOf, ha, he, Bool.not_true, Bool.false_eq_true, if_false, Bool.not_false, if_true]
+          split <;> simp
+    · have ha' : ev.authentic = false := by simpa using ha
+      simp only [ha', Bool.not_false, if_true, outOf, next]
+      exact ⟨by simp [allowed, reqOf, ha'], g, by simp [hval']⟩
+
+
+theorem strace_conforms (cfg : Cfg) (evs : List Ev) : ∀ (r : Recip) (A : List Nat), Good r.view A →
+    conforms cfg.window ⟨A, !r.init || !cfg.b12⟩ (strace cfg r evs) := by
+  induction evs with
+  | nil => intro _ _ _; trivial
+  | cons ev evs ih =>
+    intro r A g
+    obtain ⟨h1, h2, h3⟩ := vrecv_conforms (cfg := cfg) ev g
+    have hv : r.view.init = r.init := rfl
+    rw [hv] at h1 h2 h3
+    rw [← recv_snd] at h1 h2 h3
+    rw [← recv_fst_view] at h2 h3
+    simp only [strace, conforms]
+    refine ⟨h1, ?_⟩
+    have := ih (recv cfg r ev).1 _ h2
+    have hv' : (recv cfg r ev).1.view.init = (recv cfg r ev).1.init := rfl
+    rw [hv'] at h3
+    rw [← h3] at this
+    exact this
+
+/-- PIVs of the requests a trace reports as accepted. -/
+def tracc : List (Req × Out) → List Nat
+  | [] => []
+  | (q, o) :: t => (if o = .accept then [q.piv] else []) ++ tracc t
+
+theorem tracc_strace (cfg : Cfg) (evs : List Ev) : ∀ r : Recip, tracc (strace cfg r evs) = accepted cfg r evs := by
+  induction evs with
+  | nil => intro _; rfl
+  | cons ev evs ih =>
+    intro r
+    simp only [strace, tracc, accepted, ih]
+    cases h : (recv cfg r ev).2 <;> simp [outOf, reqOf]
+
+theorem spec_nodup_aux (w : Nat) (t : List (Req × Out)) : ∀ s : St, (s.synced = false → s.accepted = []) →
+    conforms w s t → (tracc t).Nodup ∧ ∀ p ∈ tracc t, p ∉ s.accepted := by
+  induction t with
+  | nil => intro _ _ _; simp [tracc]
+  | cons x t ih =>
+    intro s hs hc
+    obtain ⟨q, o⟩ := x
+    simp only [conforms] at hc
+    obtain ⟨hal, hc⟩ := hc
+    by_cases ho : o = .accept
+    · subst ho
+      have hnot : q.piv ∉ s.accepted := by
+        intro hm
+        unfold allowed at hal
+        by_cases ha : q.authentic = true
+        · simp only [ha, Bool.not_true, Bool.false_eq_true, if_false] at hal
+          cases hsy : s.synced with
+          | false => rw [hs hsy] at hm; cases hm
+          | true =>
+            simp [hsy, hm] at hal
+        · simp [ha] at hal
+      obtain ⟨nd, dis⟩ := ih (next s q .accept) (by simp [next]) hc
+      simp only [tracc, if_true, List.singleton_append, List.nodup_cons]
+      refine ⟨⟨fun hm => dis _ hm (by simp [next]), nd⟩, ?_⟩
+      intro p hp
+      rcases List.mem_cons.mp hp with rfl | hp
+      · exact hnot
+      · exact fun hA => dis p hp (by simp [next, hA])
+    · have hn : next s q o = s := by cases o <;> simp_all [next]
+      rw [hn] at hc
+      simp only [tracc, ho, if_false, List.nil_append]
+      exact ih s hs hc
+
+
+end Conformance
 
 end Coap.Replay
